@@ -1236,7 +1236,7 @@ func ruleC02k(c *Ctx) {
 					if strip(bo.X) == x && bo.Op == token.NEQ && isNilConst(bo.Y) {
 						return true
 					}
-					if call, ok := strip(bo.X).(*ssa.Call); ok && isBuiltinCall(call, "len") && sameSliceValue(p, call.Call.Args[0], x) {
+					if isLenOf(p, bo.X, x) {
 						if n0, ok := constInt(bo.Y); ok && ((bo.Op == token.NEQ && n0 == 0) || (bo.Op == token.GTR && n0 == 0) || (bo.Op == token.GEQ && n0 == 1)) {
 							return true
 						}
@@ -1284,7 +1284,66 @@ func sameSliceValue(p *Program, a, b ssa.Value) bool {
 	}
 	ba, fa, oka := fieldLoad(a)
 	bb, fb, okb := fieldLoad(b)
-	return oka && okb && fa == fb && strip(ba) == strip(bb)
+	if oka && okb && fa == fb && strip(ba) == strip(bb) {
+		return true
+	}
+	// two loads of one local variable with nothing that can change it in between (the earlier load's block runs
+	// straight into the later one's)
+	ua, ok1 := a.(*ssa.UnOp)
+	ub, ok2 := b.(*ssa.UnOp)
+	if ok1 && ok2 && ua.Op == token.MUL && ub.Op == token.MUL && ua.X == ub.X {
+		if al, ok := ua.X.(*ssa.Alloc); ok {
+			first, second := ua, ub
+			if first.Block() == second.Block() && indexInBlock(first) > indexInBlock(second) {
+				first, second = second, first
+			} else if first.Block() != second.Block() {
+				if second.Block().Dominates(first.Block()) {
+					first, second = second, first
+				}
+			}
+			changes := func(i ssa.Instruction) bool {
+				if st, ok := i.(*ssa.Store); ok && st.Addr == ssa.Value(al) {
+					return true
+				}
+				if cc := callCommon(i); cc != nil {
+					for _, x := range cc.Args {
+						if x == ssa.Value(al) {
+							return true
+						}
+					}
+				}
+				return false
+			}
+			if first.Block() == second.Block() {
+				for k := indexInBlock(first); k < indexInBlock(second); k++ {
+					if changes(first.Block().Instrs[k]) {
+						return false
+					}
+				}
+				return true
+			}
+			isSucc := false
+			for _, sc := range first.Block().Succs {
+				if sc == second.Block() && len(second.Block().Preds) == 1 {
+					isSucc = true
+				}
+			}
+			if isSucc {
+				for k := indexInBlock(first); k < len(first.Block().Instrs); k++ {
+					if changes(first.Block().Instrs[k]) {
+						return false
+					}
+				}
+				for k := 0; k < indexInBlock(second); k++ {
+					if changes(second.Block().Instrs[k]) {
+						return false
+					}
+				}
+				return true
+			}
+		}
+	}
+	return false
 }
 
 func isModuleStructSlice(p *Program, t types.Type) bool {
